@@ -420,6 +420,21 @@ func (c *compiler) compileFlow(file *ast.File, call *ast.CallExpr) *flow {
 		}
 	}
 
+	// Create an implied Instrument(...) annotation for all tasks if the
+	// flow is instrumented and the --auto-instrument flag was
+	// passed. This happens after all options were read so that the
+	// position of cff.InstrumentFlow among them does not matter.
+	if flow.Instrument != nil && c.instrumentAllTasks {
+		for _, t := range flow.Tasks {
+			if t.Instrument != nil {
+				continue
+			}
+			taskPos := c.nodePosition(t)
+			name := fmt.Sprintf("%s.%d", filepath.Base(taskPos.Filename), taskPos.Line)
+			t.Instrument = c.compileInstrumentName(name)
+		}
+	}
+
 	// At this point, c.errors may be non-empty but we are continuing with more checks to catch all
 	// possible errors prior to scheduling attempt and return them at once.
 	c.validateInstrument(&flow)
@@ -680,15 +695,6 @@ func (c *compiler) compileTask(flow *flow, expr ast.Expr, opts []ast.Expr) *task
 	}
 	if len(t.Outputs) > 0 && t.invokeType != nil {
 		c.errf(c.nodePosition(expr), "cff.Invoke cannot be provided on a Task that produces values besides errors")
-	}
-
-	// Create an implied Instrument(...) annotation for all tasks if the
-	// flow is instrumented and the --auto-instrument flag was
-	// passed.
-	if flow.Instrument != nil && c.instrumentAllTasks && t.Instrument == nil {
-		taskPos := c.nodePosition(t)
-		name := fmt.Sprintf("%s.%d", filepath.Base(taskPos.Filename), taskPos.Line)
-		t.Instrument = c.compileInstrumentName(name)
 	}
 
 	return &t
